@@ -196,33 +196,69 @@ Definition wf_row (s : schema) (r : row) : Prop :=
    else r_id r < 2 ^ 64 /\ r_parent r < 2 ^ 64 /\ r_cont r < 65536 /\
         (r_cont r <> 0 -> s_cont s (r_cont r) = true) /\ nlen (r_data r) < 2 ^ 32).
 
+Lemma carries_true : c02_mask_carries_actmod = true.
+Proof. reflexivity. Qed.
+
 Lemma has_mask r :
   has (mask_of r) c02_sfm_id = negb (r_id r =? 0) /\ has (mask_of r) c02_sfm_parent = negb (r_parent r =? 0) /\
   has (mask_of r) c02_sfm_container = negb (r_cont r =? 0) /\ has (mask_of r) c02_sfm_active = negb (r_active r) /\
-  mask_of r < 65536.
+  mask_of r < 65536 /\ has (mask_of r) c02_sfm_actmod = r_mod r.
 Proof.
-  unfold mask_of, has.
+  unfold mask_of, mask_of_old, has.
+  destruct (r_id r =? 0), (r_parent r =? 0), (r_cont r =? 0), (r_active r), (r_mod r); repeat split; reflexivity.
+Qed.
+
+(* the mask written before 35e511a40 never has the bit *)
+Lemma has_mask_old r :
+  has (mask_of_old r) c02_sfm_id = negb (r_id r =? 0) /\ has (mask_of_old r) c02_sfm_parent = negb (r_parent r =? 0) /\
+  has (mask_of_old r) c02_sfm_container = negb (r_cont r =? 0) /\ has (mask_of_old r) c02_sfm_active = negb (r_active r) /\
+  mask_of_old r < 65536 /\ has (mask_of_old r) c02_sfm_actmod = false.
+Proof.
+  unfold mask_of_old, has.
   destruct (r_id r =? 0), (r_parent r =? 0), (r_cont r =? 0), (r_active r); repeat split; reflexivity.
 Qed.
 
 Ltac rd_step := rewrite <- ?app_assoc; rewrite rdn_be by (cbn; lia); cbn [bind].
 
-Lemma dec_row_enc s v r rest : v <> 0 -> wf_row s r -> dec_row s v (enc_row r ++ rest) = Some (r, rest).
+Lemma dec_row_enc_with (mask : row -> N) (md : row -> bool) s v r rest :
+  (forall r, has (mask r) c02_sfm_id = negb (r_id r =? 0) /\ has (mask r) c02_sfm_parent = negb (r_parent r =? 0) /\
+             has (mask r) c02_sfm_container = negb (r_cont r =? 0) /\ has (mask r) c02_sfm_active = negb (r_active r) /\
+             mask r < 65536 /\ has (mask r) c02_sfm_actmod = md r) ->
+  v <> 0 -> wf_row s r ->
+  dec_row s v (enc_row_with mask r ++ rest) =
+  Some (mkRow (r_qid r) (r_id r) (r_parent r) (r_cont r) (r_active r) (r_data r) (if r_qid r =? 0 then false else md r), rest).
 Proof.
-  intros Hv [Hq [Hk Hr]]. unfold dec_row, enc_row.
-  destruct (has_mask r) as (M1 & M2 & M3 & M4 & M5).
-  destruct r as [q id par cont act data]. cbn [r_qid r_id r_parent r_cont r_active r_data] in *.
+  intros HM Hv [Hq [Hk Hr]]. unfold dec_row, enc_row_with.
+  destruct (HM r) as (M1 & M2 & M3 & M4 & M5 & M6).
+  destruct r as [q id par cont act data mdf]. cbn [r_qid r_id r_parent r_cont r_active r_data r_mod] in *.
   rd_step. rewrite Hk. cbn [negb].
   destruct (N.eqb_spec q 0) as [E|E].
-  - rewrite Hr. reflexivity.
+  - inversion Hr; subst. reflexivity.
   - destruct Hr as (Hid & Hpar & Hcont & Hc & Hlen).
     destruct (N.eqb_spec v 0) as [E0|_]; [contradiction|].
-    rd_step. rewrite M1, M2, M3, M4. unfold opt_rd.
+    rd_step. rewrite M1, M2, M3, M4, M6. change c02_mask_carries_actmod with true. cbn [andb]. unfold opt_rd.
     destruct (N.eqb_spec id 0) as [I|I]; cbn [negb app bind]; [subst id|rd_step];
     (destruct (N.eqb_spec par 0) as [P|P]; cbn [negb app bind]; [subst par|rd_step]);
     (destruct (N.eqb_spec cont 0) as [C|C]; cbn [negb app bind andb]; [subst cont|rd_step; rewrite (Hc C); cbn [negb andb]]);
     (destruct act; cbn [negb app bind]; [|rewrite rd_bool_cons; cbn [bind N.eqb negb]]);
     rd_step; rewrite take_n_app; reflexivity.
+Qed.
+
+Lemma dec_row_enc s v r rest : v <> 0 -> wf_row s r -> dec_row s v (enc_row r ++ rest) = Some (r, rest).
+Proof.
+  intros Hv W. unfold enc_row. rewrite (dec_row_enc_with mask_of r_mod s v r rest has_mask Hv W).
+  destruct W as [_ [_ Hr]]. destruct (N.eqb_spec (r_qid r) 0) as [E|E].
+  - rewrite Hr. reflexivity.
+  - destruct r; reflexivity.
+Qed.
+
+(* a row written with the old mask decodes with the mark cleared: old rows stay readable, and the
+   old writer loses the mark *)
+Lemma dec_row_enc_old s v r rest : v <> 0 -> wf_row s r ->
+  dec_row s v (enc_row_with mask_of_old r ++ rest) = Some (clear_row r, rest).
+Proof.
+  intros Hv W. rewrite (dec_row_enc_with mask_of_old (fun _ => false) s v r rest has_mask_old Hv W).
+  destruct (r_qid r =? 0); reflexivity.
 Qed.
 
 Inductive wf_obj (s : schema) : obj -> Prop :=
@@ -267,7 +303,7 @@ Definition wf_cud (s : schema) (c : cud) : Prop :=
 Lemma flat_be2_len l : nlen (flat_map (be 2) l) = 2 * nlen l.
 Proof. unfold nlen. induction l as [|x t IH]; cbn [flat_map length]; [reflexivity|]. rewrite app_length. unfold be at 1. rewrite be_bytes_length. lia. Qed.
 
-Lemma dec_cud_enc s c rest : wf_cud s c -> dec_cud s c02_codec_last (enc_cud c ++ rest) = Some (clear_cud c, rest).
+Lemma dec_cud_enc s c rest : wf_cud s c -> dec_cud s c02_codec_last (enc_cud c ++ rest) = Some (c, rest).
 Proof.
   intros (Wr & Wl & We). unfold dec_cud, enc_cud. rewrite <- app_assoc.
   rewrite dec_row_enc by (auto; discriminate). cbn [bind].
@@ -277,7 +313,7 @@ Proof.
   - exfalso. unfold nlen in L. rewrite app_length in L. pose proof (flat_be2_len (c_emptied c)) as F. unfold nlen in F. lia.
   - unfold nlen at 1. rewrite Nat2N.id.
     rewrite (rep_enc _ (be 2) (fun x => x) (c_emptied c) rest).
-    + cbn [bind]. rewrite map_id. reflexivity.
+    + cbn [bind]. rewrite map_id. destruct c; reflexivity.
     + rewrite Forall_forall in *. intros i Hi r'. destruct (We i Hi) as [Li Si].
       rewrite rdn_be by (cbn; lia). cbn [bind]. rewrite Si. reflexivity.
 Qed.
@@ -310,9 +346,9 @@ Proof.
 Qed.
 
 Lemma dec_cuds_enc s (cs : list cud) rest : Forall (wf_cud s) cs ->
-  rep (dec_cud s c02_codec_last) (length cs) (flat_map enc_cud cs ++ rest) = Some (map clear_cud cs, rest).
+  rep (dec_cud s c02_codec_last) (length cs) (flat_map enc_cud cs ++ rest) = Some (cs, rest).
 Proof.
-  intros H. apply rep_enc. rewrite Forall_forall in *. intros c Hc r'. apply dec_cud_enc. apply H. exact Hc.
+  intros H. rewrite <- (map_id cs) at 3. apply rep_enc. rewrite Forall_forall in *. intros c Hc r'. apply dec_cud_enc. apply H. exact Hc.
 Qed.
 
 Theorem dec_event_enc s e rest f :
@@ -320,7 +356,7 @@ Theorem dec_event_enc s e rest f :
   dec_event s f (enc_event e ++ rest) = Some (stored_form e, rest).
 Proof.
   intros (Hq & Hq0 & Hk & Hk0 & Hp & Hpo & Hws & Hwo & Hreg & Hsync & Hbody) Hdep.
-  unfold dec_event, enc_event, stored_form.
+  unfold dec_event, enc_event, stored_form. change c02_mask_carries_actmod with true. cbv iota.
   destruct e as [q part poffs ws woffs reg sync dev syncat valid es en bs arg unl cs us].
   cbn [e_qid e_part e_poffs e_ws e_woffs e_reg e_sync e_dev e_syncat e_valid e_errstr e_errname e_errbytes e_arg e_unl e_creates e_updates] in *.
   cbn [app]. change (rdn 1 (c02_codec_last :: ?x)) with (Some (c02_codec_last, x)). cbn [bind].
@@ -358,7 +394,7 @@ Qed.
 Lemma depth_le_enc s o : wf_obj s o -> (depth o <= length (enc_obj o))%nat.
 Proof.
   induction o as [r ks IH] using obj_ind2. intros W. inversion W as [r' ks' Wr Wn Wl Wk]; subst r' ks'.
-  cbn [depth enc_obj]. unfold enc_row. rewrite !app_length. unfold be at 1. rewrite be_bytes_length.
+  cbn [depth enc_obj]. unfold enc_row, enc_row_with. rewrite !app_length. unfold be at 1. rewrite be_bytes_length.
   destruct (N.eqb_spec (r_qid r) 0) as [E|E].
   - rewrite (Wn E). cbn. lia.
   - rewrite !app_length. unfold be at 2. rewrite be_bytes_length.
@@ -399,29 +435,19 @@ Proof.
   inversion D0 as [[He Hr]]. symmetry in Hr. apply app_eq_nil in Hr. destruct Hr as [_ Hx]. contradiction.
 Qed.
 
-Definition no_actmod (e : event) : Prop :=
-  Forall (fun c => c_actmod c = false) (e_creates e) /\ Forall (fun c => c_actmod c = false) (e_updates e).
-
 (* an event that is not valid is just its error record, with texts that fit a short string *)
 Definition bare_error (e : event) : Prop :=
   stored_valid e = false ->
   nlen (e_errstr e) <= 65535 /\ nlen (e_errname e) <= 65535 /\
   e_arg e = null_obj /\ e_unl e = null_obj /\ e_creates e = [] /\ e_updates e = [].
 
-Lemma clear_id (cs : list cud) : Forall (fun c => c_actmod c = false) cs -> map clear_cud cs = cs.
+Theorem codec_roundtrip_partial_proved s e : wf_event s e -> bare_error e -> decode s (enc_event e) = Some e.
 Proof.
-  induction 1 as [|c t Hc Ht IH]; cbn [map]; [reflexivity|]. rewrite IH. f_equal.
-  destruct c as [r es a]. cbn in Hc. subst a. reflexivity.
-Qed.
-
-Theorem codec_roundtrip_partial_proved s e : wf_event s e -> no_actmod e -> bare_error e -> decode s (enc_event e) = Some e.
-Proof.
-  intros W [H1 H2] B. rewrite (decode_encode_proved s e W). unfold stored_form.
-  destruct (stored_valid e) eqn:SV.
-  - rewrite (clear_id _ H1), (clear_id _ H2). destruct e; reflexivity.
-  - destruct (B SV) as (L1 & L2 & Ea & Eu & Ec & Eup).
-    rewrite (cut_str_short _ L1), (cut_str_short _ L2). rewrite Eu. cbn [root null_obj r_qid null_row N.eqb].
-    destruct e; cbn in *; subst; reflexivity.
+  intros W B. rewrite (decode_encode_proved s e W). unfold stored_form. change c02_mask_carries_actmod with true. cbv iota.
+  destruct (stored_valid e) eqn:SV; [reflexivity|].
+  destruct (B SV) as (L1 & L2 & Ea & Eu & Ec & Eup).
+  rewrite (cut_str_short _ L1), (cut_str_short _ L2). rewrite Eu. cbn [root null_obj r_qid null_row N.eqb].
+  destruct e; cbn in *; subst; reflexivity.
 Qed.
 
 Lemma wf_null_obj s : s_qname s 0 = true -> wf_obj s null_obj.
@@ -429,36 +455,38 @@ Proof.
   intros H. constructor; [apply wf_null_row; exact H|reflexivity|reflexivity|constructor].
 Qed.
 
-(* an update that (de)activates a record: the flag is lost *)
-Definition actmod_witness : event :=
-  mkEvent 2 1 5 7 9 1000 false 0 0 true [] [] [] null_obj null_obj []
-          [mkCud (mkRow 300 200001 0 0 false [1; 2]) [] true].
-
-Lemma actmod_witness_wf : wf_event sch_any actmod_witness.
+(* a valid event reads back exactly, the (de)activation marks of its rows included *)
+Theorem valid_event_roundtrip_proved s e : wf_event s e -> stored_valid e = true -> decode s (enc_event e) = Some e.
 Proof.
-  assert (SV : stored_valid actmod_witness = true) by reflexivity.
-  unfold wf_event. rewrite SV. unfold actmod_witness.
-  cbn [e_qid e_part e_poffs e_ws e_woffs e_reg e_sync e_dev e_syncat e_valid e_errstr e_errname e_errbytes e_arg e_unl e_creates e_updates].
-  split; [lia|]. split; [lia|]. split; [reflexivity|]. split; [reflexivity|].
-  do 5 (split; [lia|]). split; [split; reflexivity|].
-  do 4 (split; [reflexivity|]).
-  split; [apply wf_null_obj; reflexivity|]. split; [apply wf_null_obj; reflexivity|].
-  split; [reflexivity|]. split; [constructor|]. split; [reflexivity|].
-  constructor; [|constructor]. unfold wf_cud. cbn [c_row c_emptied].
-  split; [|split; [reflexivity|constructor]].
+  intros W SV. rewrite (decode_encode_proved s e W). unfold stored_form. rewrite SV. reflexivity.
+Qed.
+
+(* IsActivated / IsDeactivated of the CUD rows of the decoded event are those of the appended one *)
+Theorem activation_flags_read_back_proved s e : wf_event s e -> stored_valid e = true ->
+  exists d, decode s (enc_event e) = Some d /\
+            map activated (e_updates d) = map activated (e_updates e) /\
+            map deactivated (e_updates d) = map deactivated (e_updates e) /\
+            map (fun c => r_mod (c_row c)) (e_creates d) = map (fun c => r_mod (c_row c)) (e_creates e).
+Proof.
+  intros W SV. exists e. split; [apply valid_event_roundtrip_proved; assumption|]. repeat split.
+Qed.
+
+(* the writer before 35e511a40 (mask without the bit): the mark of a row is lost - an update that
+   (de)activates a record decodes as a plain update; and rows it wrote still decode *)
+Theorem activation_mark_lost_with_old_mask_proved :
+  (forall s v r rest, v <> 0 -> wf_row s r -> dec_row s v (enc_row_with mask_of_old r ++ rest) = Some (clear_row r, rest))
+  /\ exists r, wf_row sch_any r /\ activated (mkCud r []) || deactivated (mkCud r []) = true
+               /\ activated (mkCud (clear_row r) []) || deactivated (mkCud (clear_row r) []) = false.
+Proof.
+  split; [exact dec_row_enc_old|].
+  exists (mkRow 300 200001 0 0 false [1; 2] true). split; [|split; reflexivity].
   unfold wf_row. cbn [r_qid r_id r_parent r_cont r_data N.eqb].
   split; [lia|]. split; [reflexivity|]. split; [lia|]. split; [lia|]. split; [lia|]. split; [intros _; reflexivity|reflexivity].
 Qed.
 
-Theorem codec_roundtrip_refuted_proved : exists s e, wf_event s e /\ decode s (enc_event e) <> Some e.
-Proof.
-  exists sch_any, actmod_witness. split; [exact actmod_witness_wf|].
-  rewrite (decode_encode_proved _ _ actmod_witness_wf). vm_compute. congruence.
-Qed.
-
 (* an event that is not valid but still carries the builder's argument object: not stored (C02-F4) *)
 Definition error_args_witness : event :=
-  mkEvent 1 1 5 7 9 1000 false 0 0 false [120] [116; 46; 99] [] (Obj (mkRow 301 1 0 0 true [1; 2]) []) null_obj [] [].
+  mkEvent 1 1 5 7 9 1000 false 0 0 false [120] [116; 46; 99] [] (Obj (mkRow 301 1 0 0 true [1; 2] false) []) null_obj [] [].
 
 (* an error text of 65536 bytes: cut to 65535 (C02-F6) *)
 Definition long_error_witness : event :=
@@ -474,16 +502,16 @@ Proof.
 Qed.
 
 Theorem error_args_refuted_proved :
-  exists s e, wf_event s e /\ no_actmod e /\ decode s (enc_event e) <> Some e.
+  exists s e, wf_event s e /\ decode s (enc_event e) <> Some e.
 Proof.
-  exists sch_any, error_args_witness. split; [apply error_witness_wf|]. split; [split; constructor|].
+  exists sch_any, error_args_witness. split; [apply error_witness_wf|].
   unfold error_args_witness. rewrite (decode_encode_proved _ _ (error_witness_wf _ _)). vm_compute. congruence.
 Qed.
 
 Theorem long_error_refuted_proved :
-  exists s e, wf_event s e /\ no_actmod e /\ e_arg e = null_obj /\ e_creates e = [] /\ decode s (enc_event e) <> Some e.
+  exists s e, wf_event s e /\ e_arg e = null_obj /\ e_creates e = [] /\ decode s (enc_event e) <> Some e.
 Proof.
-  exists sch_any, long_error_witness. split; [apply error_witness_wf|]. split; [split; constructor|].
+  exists sch_any, long_error_witness. split; [apply error_witness_wf|].
   split; [reflexivity|]. split; [reflexivity|].
   unfold long_error_witness. rewrite (decode_encode_proved _ _ (error_witness_wf _ _)).
   intros H. apply (f_equal (fun o => match o with Some x => nlen (e_errstr x) | None => 0 end)) in H.
@@ -493,20 +521,19 @@ Qed.
 (* ---------- the object PutPlog returns; re-encoding ---------- *)
 Definition short_texts (e : event) : Prop := nlen (e_errstr e) <= 65535 /\ nlen (e_errname e) <= 65535.
 
-Lemma stored_returned e : no_actmod e -> short_texts e -> stored_form e = returned_form_with true e.
+Lemma stored_returned e : short_texts e -> stored_form e = returned_form_with true e.
 Proof.
-  intros [H1 H2] [L1 L2]. unfold stored_form, returned_form_with. cbn [andb].
-  destruct (stored_valid e) eqn:SV; cbn [negb].
-  - rewrite (clear_id _ H1), (clear_id _ H2). destruct e; reflexivity.
-  - rewrite (cut_str_short _ L1), (cut_str_short _ L2). reflexivity.
+  intros [L1 L2]. unfold stored_form, returned_form_with. change c02_mask_carries_actmod with true. cbv iota. cbn [andb].
+  destruct (stored_valid e) eqn:SV; cbn [negb]; [reflexivity|].
+  rewrite (cut_str_short _ L1), (cut_str_short _ L2). reflexivity.
 Qed.
 
 (* reading back gives the object PutPlog returned, whatever the builder left in an invalid event *)
 Theorem returned_object_reads_back_proved clears s e :
-  clears = true -> wf_event s e -> no_actmod e -> short_texts e ->
+  clears = true -> wf_event s e -> short_texts e ->
   decode s (enc_event e) = Some (returned_form_with clears e).
 Proof.
-  intros -> W A T. rewrite (decode_encode_proved s e W). f_equal. apply stored_returned; assumption.
+  intros -> W T. rewrite (decode_encode_proved s e W). f_equal. apply stored_returned; assumption.
 Qed.
 
 (* with the original name kept, encoding an event again is encoding it *)
@@ -518,17 +545,12 @@ Qed.
 Lemma cut_str_idem s : cut_str (cut_str s) = cut_str s.
 Proof. apply cut_str_short. pose proof (cut_str_len s). lia. Qed.
 
-Lemma enc_clear (cs : list cud) : flat_map enc_cud (map clear_cud cs) = flat_map enc_cud cs.
-Proof. induction cs as [|c t IH]; cbn [map flat_map]; [reflexivity|]. rewrite IH. reflexivity. Qed.
-
 (* the stored form encodes to the same bytes *)
 Lemma enc_stored_form e : enc_event (stored_form e) = enc_event e.
 Proof.
-  unfold stored_form. destruct (stored_valid e) eqn:SV.
-  - unfold enc_event, stored_valid in *. cbn [e_qid e_part e_poffs e_ws e_woffs e_reg e_sync e_dev e_syncat e_valid e_errstr e_errname e_errbytes e_arg e_unl e_creates e_updates].
-    rewrite SV. unfold nlen. rewrite !map_length, !enc_clear. reflexivity.
-  - unfold enc_event, stored_valid in *. cbn [e_qid e_part e_poffs e_ws e_woffs e_reg e_sync e_dev e_syncat e_valid e_errstr e_errname e_errbytes e_arg e_unl e_creates e_updates].
-    rewrite SV. unfold enc_str. rewrite !cut_str_idem. cbn [root null_obj r_qid null_row N.eqb]. reflexivity.
+  unfold stored_form. change c02_mask_carries_actmod with true. cbv iota. destruct (stored_valid e) eqn:SV; [reflexivity|].
+  unfold enc_event, stored_valid in *. cbn [e_qid e_part e_poffs e_ws e_woffs e_reg e_sync e_dev e_syncat e_valid e_errstr e_errname e_errbytes e_arg e_unl e_creates e_updates].
+  rewrite SV. unfold enc_str. rewrite !cut_str_idem. cbn [root null_obj r_qid null_row N.eqb]. reflexivity.
 Qed.
 
 (* ... hence a decoded event re-encodes to the bytes it was decoded from *)
